@@ -514,6 +514,7 @@ def run(check, mirror, tier):
         st = o.st
         lx = ex.read(st, v["_lexer"].cell, v["_lexer"].projs)
         pos = lx.fields[lf.index("position")].e
+        flag_after = lx.fields[lf.index("till_in")].e
         tok = token_of(ex, o)
         if tok is None:
             return [("a name start character yields a name token", z3.BoolVal(False))]
@@ -583,7 +584,8 @@ def run(check, mirror, tier):
                 for k in range(1, m):
                     if not parts[k][1]:
                         here = z3.And(no_in, is_in(parts[k][0]))
-                        t_cases.append(z3.Implies(here, z3.And(same(got, norm(parts[:k])), pos == ends[k - 1] + 1, z3.BoolVal(kind == "Name"))))
+                        # .. and the request for an iteration variable is answered: the flag is cleared (left set, it cuts a later name before a later `in`)
+                        t_cases.append(z3.Implies(here, z3.And(same(got, norm(parts[:k])), pos == ends[k - 1] + 1, z3.BoolVal(kind == "Name"), z3.Not(flag_after))))
                         no_in = z3.And(no_in, z3.Not(is_in(parts[k][0])))
                 t_cases.append(z3.Implies(no_in, res))
                 res = z3.And(t_cases)
@@ -664,10 +666,12 @@ def run(check, mirror, tier):
             _, out, _ = replay_call(rb, ["lex_name", text, "1" if i.get("till_in") else "0"] + keys)
             if out.startswith("PANIC"):
                 return True, "consume_name on %r with bound names %r -> %s" % (text, keys, out[:120])
-            mm = re.match(r"^TOKEN (\w+) pos=(\d+) name=(.*)$", out)
+            mm = re.match(r"^TOKEN (\w+) pos=(\d+) till_in=(\w+) name=(.*)$", out)
             if not mm:
                 return True, "consume_name on %r with bound names %r -> %s (a name token is specified)" % (text, keys, out[:120])
-            got_pos, got_name = int(mm.group(2)), mm.group(3)
+            got_pos, got_name = int(mm.group(2)), mm.group(4)
+            if i.get("till_in") and "in" in words[1:] and mm.group(3) != "false":
+                return True, "consume_name on %r asked for an iteration variable -> name %r, but the request flag is still set afterwards (a later name would be cut before a later `in`)" % (text, got_name)
             if got_name != want_name or not (lo <= got_pos <= hi):
                 return True, "consume_name on %r with bound names %r -> name %r, cursor %d; specified name %r, cursor %d" % (text, keys, got_name, got_pos, want_name, lo)
         return False, "consume_name on %r agrees with the oracle for every key set over its prefixes" % text
